@@ -111,7 +111,7 @@ META["C11"] = dict(
 META["C18"] = dict(
     design_ref="DESIGN.md section 5, C18",
     technique="Coq proof of an inductive invariant over a labelled transition model of the runner (callers, abstract-time environment, goroutine select) for every execution; refutation witness for the pinned Start/Stop; trace-admissibility correspondence: the real Runner's totally ordered event log is checked by the extracted checker, plus held-invocation script, goroutine-leak check and one-sided cadence bound",
-    text="Theorems C18_once_per_tick, C18_stop_quiescent, C18_no_goroutine_left, C18_schedule_progress: in every execution the function is never invoked before Start and at most once per tick delivered by the active schedule's ticker; once Stop has returned no step starts or ends the function, ever; Stop returns only after the goroutine exited and after cancellation its exit is always enabled; the timer moves to the next schedule (last one stays) and Restart returns to the first. Refuted/C18_pinned.v proves the pinned code invokes the function after Stop returned.",
+    text="C18_timed_checker_sound: in every timed run of the model in which timer and ticker events never come early, the timed log of schedule steps and function starts is accepted by runner_timed_ok (moving on no earlier than the next schedule's start delay after the current schedule started, a Restart re-arming it; a function start no earlier than one period after its schedule started). Theorems C18_once_per_tick, C18_stop_quiescent, C18_no_goroutine_left, C18_schedule_progress: in every execution the function is never invoked before Start and at most once per tick delivered by the active schedule's ticker; once Stop has returned no step starts or ends the function, ever; Stop returns only after the goroutine exited and after cancellation its exit is always enabled; the timer moves to the next schedule (last one stays) and Restart returns to the first. Refuted/C18_pinned.v proves the pinned code invokes the function after Stop returned.",
     note="Trusted: Coq kernel; channel/select/timer semantics as modelled (timers never early, select may take any ready case); premise first StartDelay < 1h placeholder; the trace checker accepts every visible trace of the model (theorem C18_checker_accepts_model); wall-clock accuracy is the runtime's (one-sided checks only); extraction + driver; harness.",
 )
 
